@@ -87,8 +87,7 @@ func joinURN(scheme, path, query, display string) string {
 	return s
 }
 
-// urn applies the re-lettering to one URN string. tel keeps everything but the last four digits (same country,
-// same area code); other schemes re-letter the whole path; the display is re-lettered too.
+// urn applies the re-lettering to one URN string. tel keeps the country and re-letters the last four digits and swaps the area code for another of the same country; other schemes re-letter the whole path; the display is re-lettered too.
 func (ro rot) urn(u string) string {
 	scheme, path, query, display, ok := splitURN(u)
 	if !ok || ro.identity() {
@@ -96,6 +95,17 @@ func (ro rot) urn(u string) string {
 	}
 	if scheme == "tel" {
 		path = ro.chars(path, 4)
+		// … and, within one country, another area code: nothing the expressions see may depend on where in the country
+		// a redacted number is (the swap is its own inverse, so the re-lettering stays a bijection)
+		for _, sw := range [][2]string{{"+1206", "+1212"}, {"+1703", "+1415"}, {"1206", "1212"}} {
+			if strings.HasPrefix(path, sw[0]) {
+				path = sw[1] + path[len(sw[0]):]
+				break
+			} else if strings.HasPrefix(path, sw[1]) {
+				path = sw[0] + path[len(sw[1]):]
+				break
+			}
+		}
 	} else {
 		path = ro.chars(path, 0)
 	}
